@@ -16,7 +16,7 @@ LEVEL_TEXT = ("Runtime monitoring with a differential/refinement oracle on recor
 LEVEL_NOTE = "Trusted: nothing beyond numpy; convergence is certified by the executions themselves (orders n, 2n, 4n / b, 1.5b, 2.25b)."
 TECHNIQUE = "runtime monitoring: differential oracle (analytic vs numerical lens theory) with self-certified quadrature refinement; metamorphic options (zero aberration, interpolation mode)"
 RULE = ("agree: random (m, x, kz, lens angle, polarization angle), 10 detector points with k*rho up to 150 (quick) / 350 "
-        "(thorough), plus 64 / 1200 near-axis comparisons from the large high-index corner (m 1.5-2.5, x 12-50); Lens azimuthal order chosen to resolve k*rho_max*sin(angle); zero_ab (scalar, lists of length 0-6, float32 lens angle) / interp: same generator, MieLens "
+        "(thorough), plus 64 / 1200 near-axis comparisons from the large high-index corner (m 1.5-2.5, x 12-50); Lens azimuthal order chosen to resolve k*rho_max*sin(angle); zero_ab (scalar, lists of length 0-6, float32 lens angle) / interp (incl. window sizes that are not binary fractions with the smallest radius on a boundary): same generator, MieLens "
         "only; cutoff: points at k*rho in (3.9, 6) x quad_npts. non-trivial = at least one theory certified converged at "
         "its middle order; distinct by rounded case JSON")
 ASSUMPTIONS = ["numexpr is not installed in this sandbox: the use_numexpr=True arm of Lens cannot be reached, that sub-claim is reported as unreachable, not as held",
